@@ -139,6 +139,14 @@ CHECKS = {
         'note': _NOTE,
         'technique': 'property-based testing: round trip over generated export/reload/redesign histories + global-state invariant',
     },
+    'C19': {
+        'text': 'Batches with every reachable outcome (served, bidirectional, multi-slot, aggregated duplicates, each blocking '
+                'reason) through planning(), results_to_json() and jsontocsv(): the response is compared with an expectation '
+                'rebuilt from the post-planning request objects and each request\'s own forward/reverse propagated path '
+                '(ids, aggregation, hop list, labels, transponder objects, eleven metrics, blocked layout, CSV fields and pass flag).',
+        'note': _NOTE,
+        'technique': 'property-based testing: expected document rebuilt from the computed objects (consistency oracle) over generated outcome mixes',
+    },
 }
 
 _PENDING = 'check not built yet in this session (work in progress, see DESIGN.md §3)'
